@@ -20,9 +20,9 @@ def corpus(tier, seed):
     items = []
     nls = netlist.g2_shapes() + netlist.g1_primitives()[::7] + netlist.g3_random(seed, 12 if tier == 'quick' else 250, max_gates=8 if tier == 'quick' else 12)
     for j, nl in enumerate(nls):
-        style = ('verilog', 'bench', 'lean')[j % 3]
+        style = ('verilog', 'vbf', 'bench', 'lean')[j % 4]
         nlines = len(netlist.build(nl, style).lines) + 1
-        optl = [(False, False)] + ([(True, False), (False, True), (True, True)] if j < len(netlist.g2_shapes()) and j % 2 == 0 else [])      # every second hand-made shape also under the performance options
+        optl = [(False, False)] + ([(True, False), (False, True), (True, True)] if j < len(netlist.g2_shapes()) and j % 3 == 0 else [])      # every third hand-made shape (all four styles in turn) also under the performance options
         for m in (2, 4, 8):
             for opts in optl:
                 for ch in range(0, nlines, 10):
